@@ -486,6 +486,7 @@ func runCase(p *PackageSpec, prop string, scn int, race bool, tag string, replay
 				Prog   string   `json:"prog"`
 				Other  []string `json:"other"`
 				Gate   bool     `json:"gate"`
+				Goexit bool     `json:"goexit"`
 				Faults int      `json:"faults"`
 				Cancel int      `json:"cancel"`
 				G      int      `json:"g"`
@@ -494,6 +495,9 @@ func runCase(p *PackageSpec, prop string, scn int, race bool, tag string, replay
 				out.scenarios[ll.Prog]++
 				if ll.Gate {
 					out.scnClass[ll.Prog+"/scn:gate"]++
+				}
+				if ll.Goexit {
+					out.scnClass[ll.Prog+"/scn:goexit"]++
 				}
 				if ll.Faults > 0 {
 					out.scnClass[ll.Prog+"/scn:faults"]++
